@@ -797,6 +797,80 @@ static void run_window_trial(int idx)
 	free(t);
 }
 
+/* ----------------------------------------------------------- window3 mode
+ * Three-party directed schedule (two failpoints through hook H1) for the FIFO rule:
+ *   W  a worker that has just run the last queued item is stalled inside the drain's
+ *      unlock, after it read a state without the DIRTY bit and before its compare-and-swap;
+ *   P  a first pusher is stalled right after exchanging the tail of the (now empty) queue;
+ *   main pushes A asynchronously (the queue is not empty, the state still carries the max
+ *      QoS of the ending drain streak: no wake-up), lets W unlock (state looks idle), and
+ *      then calls a synchronous barrier-class API with B from the same thread.
+ * C02/C04: A (submitted earlier by the same thread, submission returned) finishes before
+ * B starts. */
+static void window3_arm_body(void *ctx)
+{
+	(void)ctx;
+	vf_stall2_arm("_dispatch_queue_drain_try_unlock", 3, 0, 60ull * 1000 * 1000);
+}
+static void run_window3_trial(int idx)
+{
+	trial_t *t = calloc(1, sizeof(*t));
+	t->idx = idx;
+	vf_rng_seed(&t->rng, vf_opts.seed, (uint64_t)idx * 32452843 + 19);
+	vf_rng_t *r = &t->rng;
+	t->salt = vf_rnd(r) | 1;
+	t->shape = SH_MIXED;
+	vf_perturb_off();
+	snprintf(t->prof.desc, sizeof(t->prof.desc), "stall(drainer before unlock CAS) + stall(first pusher after tail exchange)");
+	static const int bk[] = { VF_K_SYNC, VF_K_BARRIER_SYNC, VF_K_ASYNC_AND_WAIT, VF_K_BARRIER_ASYNC_AND_WAIT };
+	int conc = (idx / 4) & 1;
+	int bkind = bk[idx % 4];
+	if (conc && bkind == VF_K_SYNC) bkind = VF_K_BARRIER_SYNC;
+	if (conc && bkind == VF_K_ASYNC_AND_WAIT) bkind = VF_K_BARRIER_ASYNC_AND_WAIT;
+	t->nq = 1;
+	hq_queue_t *q = &t->qs[0];
+	q->kind = conc ? VF_Q_CONCURRENT : VF_Q_SERIAL;
+	q->target = -1; q->tree = 0; q->domain = conc ? 0 : 1;
+	q->chain_hash = vf_hash64(VF_HASH_INIT ^ t->salt, 0);
+	q->rw_check = ~(uint64_t)0;
+	snprintf(q->label, sizeof(q->label), "vf.window3.%s", conc ? "conc" : "serial");
+	q->q = dispatch_queue_create(q->label, conc ? DISPATCH_QUEUE_CONCURRENT : DISPATCH_QUEUE_SERIAL);
+	t->cap = 16;
+	t->items = calloc((size_t)t->cap, sizeof(vf_item_t));
+	vf_stall_reset();
+	vf_watch_begin("window3", 0);
+	/* X0: the drainer arms its own failpoint from inside the item (barrier item on a concurrent queue
+	 * so that the queue is drained, not redirected) */
+	if (conc) dispatch_barrier_async_f(q->q, NULL, window3_arm_body); else dispatch_async_f(q->q, NULL, window3_arm_body);
+	uint64_t t0 = vf_now_ns(CLOCK_MONOTONIC);
+	while (!vf_stall2_reached() && vf_now_ns(CLOCK_MONOTONIC) - t0 < 1000000000ull) sched_yield();
+	int reached_w = vf_stall2_reached();
+	wpusher_t w = { t, 0 };
+	pthread_t th;
+	pthread_create(&th, NULL, window_pusher, &w);
+	t0 = vf_now_ns(CLOCK_MONOTONIC);
+	while (!vf_stall_reached() && vf_now_ns(CLOCK_MONOTONIC) - t0 < 1000000000ull) sched_yield();
+	int reached_p = vf_stall_reached();
+	vf_item_t *a = submit_item(t, r, 0, VF_K_ASYNC, 1, 0, NULL, NULL);
+	vf_stall2_release();
+	{ struct timespec ts = { 0, 2000000 }; nanosleep(&ts, NULL); }   /* let the drainer finish its unlock */
+	vf_item_t *b = submit_item(t, r, 0, bkind, (int)vf_rnd_n(r, 2), 0, NULL, NULL);
+	vf_stall_release();
+	pthread_join(th, NULL);
+	vf_watch_end();
+	vf_wait_counter(&t->done, atomic_load(&t->expected), "window3:quiescence");
+	if (reached_w && reached_p) vf_count("window3_schedule_reached", 1);
+	vf_count("items", 3);
+	vf_ivstats_t st = { 0, 0, 0 };
+	check_trial(t, &st);
+	vf_emit("trial", "\"n\":1,\"sig\":\"w3-%d-%d-%d\",\"nontrivial\":%s,\"sample\":{\"trial\":%d,\"shape\":\"window3\",\"queue\":\"%s\",\"B\":\"%s\",\"drainer_stalled\":%d,\"pusher_stalled\":%d,\"A_body\":[%llu,%llu],\"B_body\":[%llu,%llu]}",
+			idx % 8, reached_w, reached_p, (reached_w && reached_p) ? "true" : "false", idx, conc ? "concurrent" : "serial", vf_kind_names[bkind], reached_w, reached_p,
+			(unsigned long long)a->start, (unsigned long long)a->end, (unsigned long long)b->start, (unsigned long long)b->end);
+	teardown(t);
+	free(t->items);
+	free(t);
+}
+
 int main(int argc, char **argv)
 {
 	vf_init(argc, argv, "h_queue");
@@ -806,6 +880,7 @@ int main(int argc, char **argv)
 		if (!strcmp(mode, "gate")) run_gate_trial(idx);
 		else if (!strcmp(mode, "starve")) run_starve_trial(idx);
 		else if (!strcmp(mode, "window")) run_window_trial(idx);
+		else if (!strcmp(mode, "window3")) run_window3_trial(idx);
 		else run_std_trial(idx);
 	}
 	return vf_finish();
